@@ -91,7 +91,7 @@ SameAct(r, s) ==
     /\ CASE s.a \in {"Extend", "Fork", "ForkSlow"} -> r.b = s.b /\ r.p = s.p /\ r.txs = s.txs
          [] s.a \in {"HandleBlock", "SwitchTo"} -> r.b = s.b
          [] s.a \in {"Announce", "HandleTx"}    -> r.t = s.t
-         [] s.a = "RestartCrash"               -> r.k = s.k
+         [] s.a \in {"RestartCrash", "RemoveStepCrash"} -> r.k = s.k
          [] s.a \in {"Import", "Remove", "ImportStep", "RemoveStep"} -> r.w = s.w
          [] OTHER                              -> TRUE
 
@@ -137,6 +137,9 @@ GenNext ==
           /\ Log([a |-> "ImportStep", w |-> Head(tasks)[2], cur |-> cursor'[Head(tasks)[2]],
                   done |-> status'[Head(tasks)[2]] = "ready", qlen |-> Len(tasks)])
        \/ /\ Lifecycle /\ RemoveStep /\ Log([a |-> "RemoveStep", w |-> Head(tasks)[2], qlen |-> Len(tasks)])
+       \/ /\ Crashes /\ Lifecycle /\ Cardinality(TaskSet) <= 1
+          /\ \E k \in Pick(1..RemoveCommits) :
+                RemoveStepCrash(k) /\ Log([a |-> "RemoveStepCrash", w |-> Head(tasks)[2], k |-> k])
        \/ /\ Crashes /\ Cardinality(TaskSet) <= 1     \* (the order in which a restart re-queues several tasks is the store's key order)
           /\ Crash /\ Log([a |-> "Crash"])
        \/ /\ Crashes /\ Restart /\ Log([a |-> "Restart"])
